@@ -190,6 +190,13 @@ def isString (t : List Byte) : Bool :=
   | 39 :: r => stringBody (r.length + 1) r == some []
   | _ => false
 
+/-- lenient: any text between two apostrophes.  stepcode keeps string values in their *encoded* form (the literal
+    itself, quotes included) and never decodes control directives, so such a token evidently spells itself. -/
+def isStringLenient (t : List Byte) : Bool :=
+  match t with
+  | 39 :: r => r.getLast? == some 39
+  | _ => false
+
 /-! ## classification used by the oracle -/
 
 /-- verdict of the grammar on a token -/
@@ -220,7 +227,7 @@ def classify {F} (ops : FloatOps F) (lookup : Int → RefLookup) (k : Kind) (t :
       | some v => if isReal t || isInteger t then .grammar (.real v) else .lenient (.real v)
       | none => .reject
     | none => .reject
-  | .string => if isString t then .grammar (.str t) else .reject
+  | .string => if isString t then .grammar (.str t) else if isStringLenient t then .lenient (.str t) else .reject
   | .binary =>
     match binaryBody t with
     | some b => if isBinary t then .grammar (.bin b) else if isBinaryLenient t then .lenient (.bin b) else .reject
